@@ -149,6 +149,29 @@ func genPEM(r *runner) {
 		doc{"cert-then-key", append(append([]byte{}, certChainPEM...), pemBlock("PRIVATE KEY", keyByName("p256").PKCS8)...)},
 		doc{"key-then-cert", append(pemBlock("PRIVATE KEY", keyByName("p256").PKCS8), certChainPEM...)},
 		doc{"text-then-cert", append([]byte("some text\n"), certChainPEM...)})
+	// a valid bundle cut at every line boundary (and one byte either side), alone and after a valid
+	// certificate; BEGIN/END lines alone, of mismatched types, with and without a body
+	bundle := append(append([]byte{}, certChainPEM...), keyByName("rsa1024").CertPEM...)
+	single := keyByName("p256").CertPEM
+	for i, b := range bundle {
+		if b != '\n' {
+			continue
+		}
+		for _, cut := range []int{i, i + 1, i + 2} {
+			if cut <= len(bundle) {
+				docs = append(docs, doc{"cut-at-line", bundle[:cut]})
+				docs = append(docs, doc{"cert-then-cut", append(append([]byte{}, single...), bundle[:cut]...)})
+			}
+		}
+	}
+	b64 := "MIIBkTCCATegAwIBAgIBATAKBggqhkjOPQQDAjAPMQ0wCwYDVQQDEwRwMjU2"
+	for _, s := range []string{"-----BEGIN CERTIFICATE-----", "-----BEGIN CERTIFICATE-----\n", "-----BEGIN CERTIFICATE-----\n" + b64, "-----BEGIN CERTIFICATE-----\n" + b64 + "\n",
+		"-----BEGIN CERTIFICATE-----\n" + b64 + "\n-----END PRIVATE KEY-----\n", "-----BEGIN CERTIFICATE-----\n" + b64 + "\n-----END CERTIFICATE----\n",
+		"-----END CERTIFICATE-----\n", "-----END PRIVATE KEY-----\n-----BEGIN CERTIFICATE-----\n", "-----BEGIN \n", "-----BEGIN ", "-----BEGIN -----\n-----END -----\n",
+		"-----BEGIN CERTIFICATE-----\nProc-Type: 4,ENCRYPTED\n\n" + b64 + "\n-----END CERTIFICATE-----\n", "-----BEGIN CERTIFICATE-----\n-----BEGIN CERTIFICATE-----\n" + b64 + "\n-----END CERTIFICATE-----\n",
+		"x-----BEGIN CERTIFICATE-----\n" + b64 + "\n-----END CERTIFICATE-----\n", "-----BEGIN CERTIFICATE-----\r\n" + b64 + "\r\n-----END CERTIFICATE-----\r\n"} {
+		docs = append(docs, doc{"marker", []byte(s)}, doc{"cert-then-marker", append(append([]byte{}, single...), []byte(s)...)}, doc{"marker-then-cert", append([]byte(s), single...)})
+	}
 	tmp := filepath.Join(r.fl.Work, "c07_pem_file.pem")
 	if r.fl.Work != "" {
 		os.WriteFile(tmp, certChainPEM, 0o600)
